@@ -1,4 +1,4 @@
-use super::swift_utils::parse_amount;
+use super::swift_utils::parse_amount_max_len;
 use crate::errors::ParseError;
 use crate::traits::SwiftField;
 use serde::{Deserialize, Serialize};
@@ -67,9 +67,9 @@ impl SwiftField for Field37H {
         }
 
         let rate = if is_negative.is_some() {
-            -parse_amount(remaining)?
+            -parse_amount_max_len(remaining, 12)?
         } else {
-            parse_amount(remaining)?
+            parse_amount_max_len(remaining, 12)?
         };
 
         Ok(Field37H {
